@@ -163,6 +163,21 @@ CHECKS = {
         technique="TLA+ transport model with symbolic RSA (TLC); TLC-rendered layouts replayed; transports judged by TLC",
         design="4/C06",
     ),
+    "C19": dict(
+        specs=["Client.tla", "ClientIO.tla"],
+        text="Client.tla models the handler registry (register_task / @handle / @catch_all), the class-level on_<command> methods "
+        "and the dispatch of one task; TLC checks over every interleaving of registrations and dispatches that each dispatch "
+        "calls exactly the expected handlers once and leaves the registry unchanged (the first-found in-place extension is "
+        "rejected by the same properties). The dumped state graph is replayed: every registry state is rebuilt through the "
+        "three registration APIs on a fresh subclass and every single dispatch, ordered pair and same-command triple is driven "
+        "through the real _beacon_loop with get_task stubbed. Identity (even id < 2^31 or ValueError), deterministic keys = "
+        "SHA-256 split, jitter band and metadata size for ASCII and non-ASCII names are recorded from run(dry_run=True) and "
+        "judged by TLC.",
+        note="Trusted: TLC, Client.tla Expected, hashlib. Ids outside [0, 2^31) may be rejected or normalised. No network: get_task, "
+        "send_callback and time.sleep are stubbed on the instance / in the harness process.",
+        technique="TLA+ registry state machine (TLC) + state-graph replay through the real loop; set-ups judged by TLC",
+        design="4/C19",
+    ),
 }
 
 NOT_YET = "check not built yet in this round; planned in DESIGN.md section 4"
